@@ -174,6 +174,13 @@ CurDelete(c) ==
                 /\ last' = [res |-> "ok", out |-> NilV]
    /\ UNCHANGED <<store, lastTxid, ver, wlock>>
 
+\* ---------------------------------------------------------------- derived files (C14, C15)
+\* A hot backup (Tx.WriteTo / CopyFile, tx.go:389-498) taken through transaction h is a database whose
+\* content is exactly h's snapshot, however many writers commit while the copy is running.
+BackupContent(h) == tx[h].root
+\* Compaction (compact.go:8-118) of the committed state, for every transaction-size limit.
+CompactContent == Compacted(store)
+
 \* ---------------------------------------------------------------- properties
 \* C02: while a read transaction stays open its view never changes.
 ReaderStable == [][\A h \in Handles : (tx[h].st = "open" /\ ~tx[h].w /\ tx'[h].st = "open") => tx'[h].root = tx[h].root]_vars
